@@ -21,7 +21,7 @@ ID = "C04"
 V4 = "3f7f0c5f-5d54-4292-94ea-ec1e1952be0"
 # injection kinds that are custom content by the specification (strict mode must refuse them); the other kinds are judged only through
 # the equivalence flag <=> strict re-parse
-MUST_REFUSE = {"ref-to-marking-flavour-name", "ref-to-extension-name", "unregistered-type", "unregistered-type+extdef-property-extension", "unregistered-type+extdef-toplevel-extension",
+MUST_REFUSE = {"extensions-claim-inside-helper-object", "ref-to-marking-flavour-name", "ref-to-extension-name", "unregistered-type", "unregistered-type+extdef-property-extension", "unregistered-type+extdef-toplevel-extension",
                "x-property", "unknown-property", "unregistered-extension", "unknown-hash", "non-vocabulary-hash", "ref-to-unregistered-type", "unregistered-member-type",
                "custom_properties-in-json", "custom-property-in-extdef-toplevel-object", "extension-key-names-object-type", "extension-key-names-observable-type",
                "extension-key-names-marking-flavour", "unknown-hash-first", "non-vocabulary-hash-first", "ref-to-2.1-only-type", "extensions-claim-without-extension-mechanism", "x-property-next-to-unregistered-property-extension", "x-property-next-to-unregistered-new-sdo",
@@ -43,6 +43,15 @@ def sites(base, version, tkey):
         out.append((where, path, "x-property", put("x_foo", "bar")))
         out.append((where, path, "unknown-property", put("foo_unknown", 1)))
         out.append((where, path, "custom_properties-in-json", put("custom_properties", {"x_foo": "bar"})))
+        if where in ("embedded-object", "registered-extension") and version == "2.1":
+            # only STIX objects can be extended: inside a helper type (external reference, kill chain phase, extension content ...) 'extensions' is an unknown property
+            # like any other and legitimises nothing
+            def claim(j):
+                t = harness.locate(j, path)
+                t["extensions"] = {"extension-definition--" + V4 + "6": {"extension_type": "toplevel-property-extension"}}
+                t["x_any"] = 1
+                return j
+            out.append((where, path, "extensions-claim-inside-helper-object", claim))
     obj_site((), "top-level")
     for path, v, p, ckey, pname in harness.typed_slots(base, version, tkey):
         k = p["kind"]
